@@ -85,6 +85,15 @@ reg("C08", "exploration",
     "Reference decoder = header layout + schema walk, lenient about frame-control and trailing bytes; abandonment of the pending call on an ID mismatch is accepted.",
     "DESIGN.md section 3 C08")
 
+reg("C06", "model_checking",
+    "deviation-bounded stateless search (all schedules with <= k environment deviations) over the real ProtocolHandler.command / EZSP.frame_received on a hand-stepped loop",
+    "4-5 concurrent callers of three priority classes (two start orders, one late starter) per header layout; every execution with <= 2 (thorough 3) deviations from {callback frame, duplicate "
+    "reply, reply under a foreign sequence number, callback carrying the pending sequence number, silence to the 10 s timeout, late reply to an abandoned request, link-level send failure, held "
+    "send, cancellation of any caller at any of its awaits, callback (un)registration, late start}; plus 300 sequential commands (sequence wrap) with every single deviation in a window. Oracle: "
+    "own-sequence reply or TimeoutError at exactly +10 s, one request in flight, priority/FIFO order, sequence numbers +1 mod 256, unsolicited frames to every registered callback exactly once, no leaked slot.",
+    "Callback frames carry the sequence number of the last answered command (firmware behaviour); replies to abandoned requests may be dropped; stateless search: 'states' counts visited world states without merging.",
+    "DESIGN.md section 3 C06")
+
 ALL = ["C%02d" % i for i in range(1, 21)]
 
 
